@@ -32,7 +32,7 @@
 # external _imports
 from typing import Any, Callable, Union, Iterable, Optional
 from networkx import MultiDiGraph
-from sympy import Symbol, Expr, Function, lambdify
+from sympy import Symbol, Expr, Function, Dummy, lambdify
 import numpy as np
 
 # meta infos
@@ -211,7 +211,11 @@ class ComputeOp(ComputeNode):
 
     def get_func(self) -> Callable:
         if self.func is None:
-            self.func = lambdify(self.func_args, expr=self.expr, modules=[self.backend_funcs, "numpy"])
+            # lambdify over dummy arguments: operand symbols are named after the operation that produced them
+            # (`sin`, `exp`, ...) and would otherwise shadow the function of the same name inside the lambda
+            dummies = {arg: Dummy() for arg in self.func_args}
+            self.func = lambdify([dummies[arg] for arg in self.func_args], expr=self.expr.xreplace(dummies),
+                                 modules=[self.backend_funcs, "numpy"])
         return self.func
 
     @property
